@@ -218,7 +218,13 @@ func suitesFor(prop string) []Suite {
 	case "C17":
 		return []Suite{{Name: "race", Custom: raceSuite}}
 	case "C20":
-		return []Suite{cmdSuite("generate", func(r *Rng, i int, tier string) []Op { return genGenerateCase(r) }, 150, 4000, postAny)}
+		return []Suite{cmdSuite("generate", func(r *Rng, i int, tier string) []Op {
+			if i%3 != 0 {
+				// the value clauses: the points generator on a replayed random stream
+				return genGenPtsCase(r)
+			}
+			return genGenerateCase(r)
+		}, 450, 12000, postAny)}
 	case "C16":
 		return []Suite{cmdSuite("loud", func(r *Rng, i int, tier string) []Op {
 			if i%25 == 24 {
